@@ -10,6 +10,8 @@ pub struct Synth {
     pub type_idx: Vec<u8>,
     pub types: Vec<(i32, bool)>,
     pub footer: String,
+    /// designation of each type (data block); `None` = the plain T00, T01 … table
+    pub desigs: Option<Vec<String>>,
 }
 
 fn header(version: u8, isut: u32, isstd: u32, leap: u32, time: u32, typ: u32, chr: u32) -> Vec<u8> {
@@ -39,15 +41,13 @@ fn block(s: &Synth, tsize: usize, with_indicators: bool) -> (Vec<u8>, u32, u32) 
     for (_, i) in trans.iter() {
         v.push(*i);
     }
+    let (table, idx) = desig_table(s);
     for (k, (utoff, dst)) in s.types.iter().enumerate() {
         v.extend_from_slice(&utoff.to_be_bytes());
         v.push(*dst as u8);
-        v.push(((k * 4) % (s.types.len() * 4)) as u8);
+        v.push(idx[k]);
     }
-    for k in 0..s.types.len() {
-        v.extend_from_slice(format!("T{:02}", k % 100).as_bytes());
-        v.push(0);
-    }
+    v.extend_from_slice(&table);
     let ind = if with_indicators { s.types.len() as u32 } else { 0 };
     for _ in 0..ind {
         v.push(0);
@@ -58,9 +58,36 @@ fn block(s: &Synth, tsize: usize, with_indicators: bool) -> (Vec<u8>, u32, u32) 
     (v, trans.len() as u32, ind)
 }
 
+/// designation table (NUL-terminated strings, shared when equal) and each type's index into it
+fn desig_table(s: &Synth) -> (Vec<u8>, Vec<u8>) {
+    let names: Vec<String> = match &s.desigs {
+        Some(d) => d.clone(),
+        None => (0..s.types.len()).map(|k| format!("T{:02}", k % 100)).collect(),
+    };
+    let mut table: Vec<u8> = vec![];
+    let mut idx = vec![];
+    let mut seen: Vec<(String, u8)> = vec![];
+    for n in names.iter() {
+        if let Some((_, i)) = seen.iter().find(|(m, _)| m == n) {
+            idx.push(*i);
+            continue;
+        }
+        let i = table.len().min(255) as u8;
+        table.extend_from_slice(n.as_bytes());
+        table.push(0);
+        seen.push((n.clone(), i));
+        idx.push(i);
+    }
+    (table, idx)
+}
+
+/// Designations as they occur in the wild — and a few that look like the file's own syntax (the magic, a header-like
+/// run, digits and signs): data must stay data wherever it is stored.
+const DESIGNATIONS: [&str; 23] = ["LMT", "UTC", "GMT", "CET", "CEST", "EST", "EDT", "AEDT", "+0530", "-03", "+1245", "-0930", "WITA", "ChST", "TZif", "TZif2", "TZif3", "Pacific Standard", "ABCDEFGHIJKL", "+00", "-00", "NZDT", "zzz"];
+
 impl Synth {
     pub fn bytes(&self) -> Vec<u8> {
-        let chr = (self.types.len() * 4) as u32;
+        let chr = desig_table(self).0.len() as u32;
         let typ = self.types.len() as u32;
         let with_ind = self.transitions.len() % 2 == 0;
         if self.version == 1 {
@@ -140,10 +167,13 @@ pub fn gen_footer(rng: &mut Rng, v3: bool) -> (String, PosixTz) {
             _ => rng.range_i64(-43_200, 50_400) as i32,
         };
         let name = |rng: &mut Rng, o: i32| -> String {
-            if rng.chance(1, 3) {
-                format!("<{}{:02}>", if o < 0 { '-' } else { '+' }, o.unsigned_abs() / 3600)
-            } else {
-                ["CET", "EST", "AEST", "NZST", "WET", "XYZ", "LMT"][rng.below(7) as usize].to_string()
+            match rng.below(8) {
+                0 | 1 => format!("<{}{:02}>", if o < 0 { '-' } else { '+' }, o.unsigned_abs() / 3600),
+                // POSIX puts no upper bound on the length of a name (three or more characters); quoted names may hold
+                // digits and signs: <+103126>, <-0930>, <UTC+5>, EASTERN, "Pacific" …
+                2 => format!("<{}{:02}{:02}{:02}>", if o < 0 { '-' } else { '+' }, o.unsigned_abs() / 3600, o.unsigned_abs() / 60 % 60, o.unsigned_abs() % 60),
+                3 => ["EASTERN", "Pacific", "ABCDEFGHIJKLMNOP", "WESTEUROPE", "<UTC+5>", "<GMT-10>", "<ABCDEFGH123>", "<+0530>", "<TZif2>", "TZif"][rng.below(10) as usize].to_string(),
+                _ => ["CET", "EST", "AEST", "NZST", "WET", "XYZ", "LMT"][rng.below(7) as usize].to_string(),
             }
         };
         if rng.chance(1, 4) {
@@ -174,7 +204,7 @@ pub fn gen_footer(rng: &mut Rng, v3: bool) -> (String, PosixTz) {
         let (t1, t2) = (time(rng), time(rng));
         let kind2 = if kind == 3 { rng.below(3) } else { kind };
         let std_name = name(rng, std);
-        let dst_name = ["CEST", "EDT", "AEDT", "NZDT", "WEST", "<+x1>", "DST"][rng.below(7) as usize];
+        let dst_name = ["CEST", "EDT", "AEDT", "NZDT", "WEST", "<+x1>", "DST", "EASTDAY", "<+113126>", "SUMMERTIME", "<TZif3>"][rng.below(11) as usize];
         let r1 = rule_for_doy(rng, start_doy, kind);
         let r2 = rule_for_doy(rng, end_doy, kind2);
         let text = format!("{}{}{}{},{}{},{}{}", std_name, fmt_off(std), dst_name, dst_text, r1, fmt_time(t1), r2, fmt_time(t2));
@@ -204,7 +234,17 @@ pub fn gen_synth(rng: &mut Rng) -> Synth {
     };
     let mut transitions = vec![];
     let mut type_idx = vec![];
-    for _ in 0..ntrans {
+    // sometimes the table passes through the instant whose 32-bit big-endian spelling is the file's magic "TZif"
+    // (0x545A6966 = 2014-11-05T18:16:06Z) — and its 64-bit neighbour with the magic in the low half
+    let bait: i64 = 0x545A_6966;
+    let with_bait = rng.chance(1, 10);
+    if with_bait {
+        t = bait - rng.range_i64(0, 3) * 15_000_000;
+    }
+    for k in 0..ntrans {
+        if with_bait && t > bait && !transitions.contains(&bait) && transitions.last().map(|l| *l < bait).unwrap_or(true) && k > 0 {
+            t = bait;
+        }
         transitions.push(t);
         type_idx.push(rng.below(ntypes as u64) as u8);
         t += match rng.below(4) {
@@ -227,5 +267,84 @@ pub fn gen_synth(rng: &mut Rng) -> Synth {
             types[*li as usize] = (o, d);
         }
     }
-    Synth { version, transitions, type_idx, types, footer }
+    let desigs = if rng.chance(1, 2) { Some((0..ntypes).map(|_| rng.pick(&DESIGNATIONS).to_string()).collect()) } else { None };
+    Synth { version, transitions, type_idx, types, footer, desigs }
+}
+
+
+/// A file whose header fields are all drawn *independently* — the version byte of the first and of the second header,
+/// the width (4 or 8 bytes) the second block's transition times are written with, the six counts of each header — and
+/// whose body is then written to match those fields exactly, so that the file is self-aligned however inconsistent it
+/// is (a version-2 outer header around a version-1-shaped inner block, more UT/local than standard/wall indicators,
+/// a leap-second table, non-zero indicator bytes, a valid footer behind it).  Mutating a well-formed file never gets
+/// here: one changed field misaligns everything behind it and the reader stops at the footer.
+pub fn gen_frankenstein(rng: &mut Rng) -> (Vec<u8>, String) {
+    let vers = [0u8, b'2', b'3', b'4', b'1'];
+    let vo = *rng.pick(&vers[..4]);
+    let vi = if rng.chance(1, 3) { vo } else { *rng.pick(&vers) };
+    let mut out: Vec<u8> = vec![];
+    let mut desc = format!("outer version {:?}, inner version {:?}", vo as char, vi as char);
+    let block = |rng: &mut Rng, ver: u8, tsize: usize, desc: &mut String| -> Vec<u8> {
+        let typ = 1 + rng.below(5) as u32;
+        let time = match rng.below(4) { 0 => 0, 1 => 1, _ => rng.below(12) as u32 };
+        let chr = 4 * typ;
+        let leap = if rng.chance(1, 5) { 1 + rng.below(3) as u32 } else { 0 };
+        let cnt = |rng: &mut Rng| match rng.below(4) { 0 => 0, 1 => typ, 2 => typ + 1 + rng.below(3) as u32, _ => rng.below(typ as u64 + 1) as u32 };
+        let (isut, isstd) = (cnt(rng), cnt(rng));
+        desc.push_str(&format!("; block(tsize {}): time {} typ {} chr {} leap {} isstd {} isut {}", tsize, time, typ, chr, leap, isstd, isut));
+        let mut v = b"TZif".to_vec();
+        v.push(ver);
+        v.extend_from_slice(&[0u8; 15]);
+        for x in [isut, isstd, leap, time, typ, chr] {
+            v.extend_from_slice(&x.to_be_bytes());
+        }
+        let mut t: i64 = rng.range_i64(-2_000_000_000, 1_000_000_000);
+        for _ in 0..time {
+            if tsize == 4 { v.extend_from_slice(&(t as i32).to_be_bytes()); } else { v.extend_from_slice(&t.to_be_bytes()); }
+            t += 1 + rng.below(30_000_000) as i64;
+        }
+        for _ in 0..time {
+            v.push(rng.below(typ as u64) as u8);
+        }
+        for k in 0..typ {
+            v.extend_from_slice(&((rng.range_i64(-50_000, 50_000) as i32 / 900) * 900).to_be_bytes());
+            v.push(rng.below(2) as u8);
+            v.push((4 * k) as u8);
+        }
+        for k in 0..typ {
+            v.extend_from_slice(format!("T{:02}", k).as_bytes());
+            v.push(0);
+        }
+        let mut lt: i64 = 78_796_800;
+        for k in 0..leap {
+            if tsize == 4 { v.extend_from_slice(&(lt as i32).to_be_bytes()); } else { v.extend_from_slice(&lt.to_be_bytes()); }
+            v.extend_from_slice(&((k + 1) as i32).to_be_bytes());
+            lt += 31_536_000;
+        }
+        for _ in 0..isstd {
+            v.push(rng.below(2) as u8);
+        }
+        for _ in 0..isut {
+            v.push(if rng.chance(2, 3) { 1 } else { 0 });
+        }
+        v
+    };
+    out.extend(block(rng, vo, 4, &mut desc));
+    if vo != 0 || rng.chance(1, 4) {
+        let tsize = if rng.chance(1, 2) { 8 } else { 4 };
+        out.extend(block(rng, vi, tsize, &mut desc));
+        match rng.below(5) {
+            0 => {}
+            1 => out.extend_from_slice(b"\n\n"),
+            _ => {
+                let v3 = rng.chance(1, 2);
+                let (f, _) = gen_footer(rng, v3);
+                out.push(b'\n');
+                out.extend_from_slice(f.as_bytes());
+                out.push(b'\n');
+                desc.push_str(&format!("; footer {:?}", f));
+            }
+        }
+    }
+    (out, desc)
 }
